@@ -83,6 +83,7 @@ type Contract struct {
 	UseInst   []Clause // explicit lemma instances: lemma(args...) over the function's parameters
 	MapInvs   []MapInv
 	RevealIn  map[string][]string // obligation-name suffix -> opaque spec functions revealed for that obligation only
+	LocalTypes map[string]string  // local variable name -> required Go type (printed with package names)
 }
 
 // MapInv: an invariant over every value stored in maps of one type ($v is the
@@ -360,6 +361,16 @@ func (lib *SpecLib) loadFile(path, prefix string) error {
 			} else {
 				return bad(fmt.Errorf("'uses' outside lemma/func"))
 			}
+		case "localtype":
+			// localtype <name>: <Go type>   (e.g. an index that must be keyed by the full 64-bit value)
+			i := strings.Index(rest, ":")
+			if i < 0 || cur == nil {
+				return bad(fmt.Errorf("localtype <name>: <type>"))
+			}
+			if cur.LocalTypes == nil {
+				cur.LocalTypes = map[string]string{}
+			}
+			cur.LocalTypes[strings.TrimSpace(rest[:i])] = strings.TrimSpace(rest[i+1:])
 		case "revealin":
 			// revealin <obligation suffix>: f, g
 			i := strings.Index(rest, ":")
